@@ -1,8 +1,146 @@
-(* C11 — naive Bayes.  Property theorems only (work in progress). *)
-From Coq Require Import List ZArith Bool Arith Reals.
-From SC Require Import Base.Num C11.Model C11.ProofsArgmax.
+(* C11 — naive Bayes stores the data's sufficient statistics and predicts the MAP class.
+   Property theorems only: each is closed by `exact <lemma>`; its assumptions are printed by the check.
+   Statements are about the executable model SC.C11.Model (a transliteration of
+   src/naive_bayes/*.rs, src/math/vector.rs unique_with_indices and src/linalg/stats.rs mean/var),
+   instantiated at the real numbers (`ROps`); the correspondence check ties the same model, instantiated
+   at binary64, to the implementation.  Labels are arbitrary integers; all sizes are unbounded. *)
+From Coq Require Import List ZArith Bool Arith Reals Lra.
+From SC Require Import Base.Num C11.Model C11.ProofsLabels C11.ProofsCounts C11.ProofsStats
+     C11.ProofsStats2 C11.ProofsArgmax.
 Import ListNotations.
 
+(* (1) label -> class-index mapping: the class list is strictly increasing (hence duplicate-free), contains
+   exactly the labels that occur, and classes[indices[i]] = y[i] — for arbitrary integer labels. *)
+Theorem C11_label_index_mapping : forall (y : list Z),
+  let classes := fst (unique_with_indices y) in
+  let indices := snd (unique_with_indices y) in
+  (forall i j, (i < j < length classes)%nat -> (nth i classes 0 < nth j classes 0)%Z) /\
+  (forall c, In c classes <-> In c y) /\
+  length indices = length y /\
+  (forall i, (i < length y)%nat ->
+             (nth i indices 0%nat < length classes)%nat /\
+             nth (nth i indices 0%nat) classes 0%Z = nth i y 0%Z).
+Proof. exact unique_with_indices_spec. Qed.
+
+(* (2) class counts: class_count[k] is the number of rows labelled classes[k]; the counts sum to n. *)
+Theorem C11_class_counts : forall (y : list Z),
+  let classes := fst (unique_with_indices y) in
+  let counts := count_classes (length classes) (snd (unique_with_indices y)) in
+  length counts = length classes /\
+  (forall k, (k < length classes)%nat -> nth k counts 0%nat = count_label y (nth k classes 0%Z)) /\
+  list_sum counts = length y.
+Proof.
+  intros y. cbn zeta. split; [apply count_classes_length|]. split.
+  - intros k Hk. apply class_count_labels. exact Hk.
+  - apply class_count_total.
+Qed.
+
+(* (3) priors: without user priors they are the class frequencies and sum to one;
+   user priors (of the right length) are returned verbatim. *)
+Theorem C11_priors_sum_to_one : forall (y : list Z),
+  (0 < length y)%nat ->
+  let counts := count_classes (length (fst (unique_with_indices y))) (snd (unique_with_indices y)) in
+  class_priors ROps None counts (length y) = Some (map (fun c => (INR c / INR (length y))%R) counts) /\
+  Rsum (map (fun c => (INR c / INR (length y))%R) counts) = 1%R.
+Proof.
+  intros y Hn. cbn zeta. split; [apply class_priors_default|].
+  apply priors_sum_one; [apply class_count_total | exact Hn].
+Qed.
+
+Theorem C11_user_priors_verbatim : forall (user : list R) (counts : list nat) (n : nat) (pri : list R),
+  class_priors ROps (Some user) counts n = Some pri -> pri = user /\ length user = length counts.
+Proof. exact class_priors_user. Qed.
+
+(* (4) Gaussian: theta and var of class k, feature j are the mean and the population variance
+   (mean squared deviation) of feature j over the rows labelled classes[k]; that set of rows is not empty. *)
+Theorem C11_gaussian_moments : forall (x : list (list R)) (y : list Z) (user : option (list R)) (m : gnb),
+  gaussian_fit ROps x y user = Some m ->
+  forall k j, (k < length m.(g_classes))%nat -> (j < ncols x)%nat ->
+  let rows := class_rows x y (nth k m.(g_classes) 0%Z) in
+  rows <> [] /\
+  nth j (nth k m.(g_theta) []) 0%R = mean (col 0%R j rows) /\
+  nth j (nth k m.(g_var) []) 0%R = variance (col 0%R j rows).
+Proof. exact gaussian_moments_spec. Qed.
+
+(* the fitted Gaussian model reports the classes / counts / priors of (1)-(3) *)
+Theorem C11_gaussian_bookkeeping : forall (x : list (list R)) (y : list Z) (user : option (list R)) (m : gnb),
+  gaussian_fit ROps x y user = Some m ->
+  let classes := fst (unique_with_indices y) in
+  let counts := count_classes (length classes) (snd (unique_with_indices y)) in
+  length x = length y /\ (0 < length x)%nat /\
+  m.(g_classes) = classes /\ m.(g_count) = counts /\
+  class_priors ROps user counts (length x) = Some m.(g_priors).
+Proof.
+  intros x y user m H. destruct (gaussian_fit_inv x y user m H) as (Hs & Hc & Hn & Hp & _).
+  destruct (shape_ok_inv x y Hs). cbn zeta. auto.
+Qed.
+
+(* (5) multinomial: feature_count[k][j] is the total count of feature j over the rows of class k, the
+   log-probabilities are the logs of the smoothed relative frequencies, which sum to one over the features. *)
+Theorem C11_multinomial_probs : forall (to_usize : R -> option nat) (x : list (list R)) (y : list Z)
+    (alpha : R) (user : option (list R)) (m : cnb),
+  multinomial_fit ROps to_usize x y alpha user = Some m -> (0 < alpha)%R -> (0 < ncols x)%nat ->
+  exists xc, convert to_usize x = Some xc /\
+  forall k, (k < length m.(c_classes))%nat ->
+    let cnts := nth k m.(c_fcount) [] in
+    let N_k := list_sum cnts in
+    length cnts = ncols x /\
+    (forall j, (j < ncols x)%nat ->
+       nth j cnts 0%nat = list_sum (col 0%nat j (class_rows xc y (nth k m.(c_classes) 0%Z))) /\
+       exp (nth j (nth k m.(c_flp) []) 0%R)
+       = ((INR (nth j cnts 0%nat) + alpha) / (INR N_k + alpha * INR (ncols x)))%R) /\
+    Rsum (map exp (nth k m.(c_flp) [])) = 1%R.
+Proof. exact multinomial_probs_spec. Qed.
+
+(* (6) Bernoulli (after the optional binarisation): feature_count[k][j] is the sum of column j over class k,
+   exp(feature_log_prob) = (N_kj + alpha) / (n_k + 2 alpha); on binary data N_kj <= n_k and the
+   complementary probability used for a 0 entry is the smoothed frequency of zeros. *)
+Theorem C11_bernoulli_probs : forall (to_usize : R -> option nat) (x0 : list (list R)) (y : list Z)
+    (alpha : R) (user : option (list R)) (th : option R) (m : cnb),
+  bernoulli_fit ROps to_usize x0 y alpha user th = Some m -> (0 < alpha)%R ->
+  let x := binarize ROps th x0 in
+  exists xc, convert to_usize x = Some xc /\
+  forall k j, (k < length m.(c_classes))%nat -> (j < ncols x)%nat ->
+    let c_k := nth k m.(c_classes) 0%Z in
+    let n_k := nth k m.(c_count) 0%nat in
+    let N := nth j (nth k m.(c_fcount) []) 0%nat in
+    n_k = count_label y c_k /\
+    N = list_sum (col 0%nat j (class_rows xc y c_k)) /\
+    exp (nth j (nth k m.(c_flp) []) 0%R) = ((INR N + alpha) / (INR n_k + alpha * 2))%R /\
+    (binary xc ->
+     (N <= n_k)%nat /\
+     (1 - exp (nth j (nth k m.(c_flp) []) 0))%R = ((INR (n_k - N) + alpha) / (INR n_k + alpha * 2))%R).
+Proof. exact bernoulli_probs_spec. Qed.
+
+(* (7) categorical: classes are 0..max label; for every feature j and class l the category counts have
+   n_categories[j] = max code + 1 entries, count the rows of the class per category, total the class count,
+   and the log-probabilities are the logs of the smoothed frequencies, summing to one over the categories
+   (also for a label value that never occurs). *)
+Theorem C11_categorical_probs : forall (to_cat : R -> option nat) (x : list (list R)) (y : list Z)
+    (alpha : R) (m : catnb),
+  categorical_fit ROps to_cat x y alpha = Some m -> (0 < alpha)%R ->
+  exists yl xc,
+    labels_to_usize y = Some yl /\ convert to_cat x = Some xc /\
+    m.(k_classes) = map Z.of_nat (seq 0 (max_nat yl + 1)) /\
+    forall j l, (j < ncols x)%nat -> (l < max_nat yl + 1)%nat ->
+      let cnts := nth l (nth j m.(k_catcount) []) [] in
+      let ncat := nth j m.(k_ncat) 0%nat in
+      let n_l := nth l m.(k_count) 0%nat in
+      ncat = (max_nat (column 0%nat xc j) + 1)%nat /\
+      n_l = length (filter (fun v => Nat.eqb v l) yl) /\
+      length cnts = ncat /\
+      list_sum cnts = n_l /\
+      (forall c, (c < ncat)%nat ->
+         nth c cnts 0%nat = length (filter (fun v => Nat.eqb v c) (cat_column yl xc j l)) /\
+         exp (nth c (nth l (nth j m.(k_coef) []) []) 0%R)
+         = ((INR (nth c cnts 0%nat) + alpha) / (INR n_l + INR ncat * alpha))%R) /\
+      Rsum (map exp (nth l (nth j m.(k_coef) []) [])) = 1%R.
+Proof. exact categorical_probs_spec. Qed.
+
+(* (8) MAP decision (BaseNaiveBayes::predict, shared by the four variants): for any non-empty class list,
+   priors and log-likelihood function the prediction is classes[k] for an index k whose score
+   log-likelihood + ln prior is maximal; among maximal indices it is the last (Rust's max_by).
+   No panic over the reals (scores are totally ordered). *)
 Theorem C11_predict_is_map : forall (classes : list Z) (priors : list R) (ll : nat -> R),
   classes <> [] ->
   exists k, predict_row ROps classes priors ll = Some (nth k classes 0%Z) /\
@@ -12,3 +150,49 @@ Theorem C11_predict_is_map : forall (classes : list Z) (priors : list R) (ll : n
             (forall j, (k < j < length classes)%nat ->
                        (class_score ROps ll priors j < class_score ROps ll priors k)%R).
 Proof. exact predict_row_map. Qed.
+
+(* ---------- the hypotheses are satisfiable (non-contiguous, unordered, negative labels) ---------- *)
+Example C11_labels_instance :
+  unique_with_indices [7; -3; 7; 250; -3; 7]%Z = ([-3; 7; 250]%Z, [1; 0; 1; 2; 0; 1]) /\
+  count_classes 3 [1; 0; 1; 2; 0; 1] = [2; 3; 1].
+Proof. split; reflexivity. Qed.
+
+Example C11_gaussian_instance :
+  exists m, gaussian_fit ROps [[1; 2]; [3; 5]; [2; 2]; [4; 1]]%R [7; -1; 7; -1]%Z None = Some m /\
+            m.(g_classes) = [-1; 7]%Z /\ m.(g_count) = [2; 2] /\ ncols [[1; 2]; [3; 5]; [2; 2]; [4; 1]]%R = 2.
+Proof. eexists. repeat split; reflexivity. Qed.
+
+Example C11_multinomial_instance :
+  exists m, multinomial_fit ROps (fun _ => Some 2) [[2; 2]; [2; 2]; [2; 2]]%R [5; -2; 5]%Z 1%R None = Some m /\
+            m.(c_classes) = [-2; 5]%Z /\ m.(c_fcount) = [[2; 2]; [4; 4]] /\ (0 < 1)%R.
+Proof.
+  unfold multinomial_fit. rewrite (alpha_ok_true 1%R) by lra.
+  eexists. repeat split; try reflexivity. lra.
+Qed.
+
+Example C11_bernoulli_instance :
+  exists m, bernoulli_fit ROps (fun _ => Some 1) [[1; 1]; [1; 1]; [1; 1]]%R [5; -2; 5]%Z 1%R None None = Some m /\
+            m.(c_count) = [1; 2] /\ m.(c_fcount) = [[1; 1]; [2; 2]] /\ binary [[1; 1]; [1; 1]; [1; 1]].
+Proof.
+  unfold bernoulli_fit. rewrite (alpha_ok_true 1%R) by lra.
+  eexists. repeat split; try reflexivity.
+  intros row Hrow v Hv. cbn in Hrow. destruct Hrow as [<-|[<-|[<-|[]]]]; cbn in Hv;
+    destruct Hv as [<-|[<-|[]]]; auto.
+Qed.
+
+(* labels {0, 2}: class 1 is enumerated although it never occurs *)
+Example C11_categorical_instance :
+  exists m, categorical_fit ROps (fun _ => Some 1) [[1; 1]; [1; 1]; [1; 1]]%R [0; 2; 2]%Z 1%R = Some m /\
+            m.(k_classes) = [0; 1; 2]%Z /\ m.(k_count) = [1; 0; 2] /\ m.(k_ncat) = [2; 2] /\
+            m.(k_catcount) = [[[0; 1]; [0; 0]; [0; 2]]; [[0; 1]; [0; 0]; [0; 2]]].
+Proof.
+  unfold categorical_fit. rewrite (alpha_ok_true 1%R) by lra.
+  eexists. repeat split; reflexivity.
+Qed.
+
+Example C11_predict_instance :
+  predict_row ROps [-3; 7; 250]%Z [1; 1; 1]%R (fun k => match k with 1%nat => 2 | _ => 0 end)%R <> None.
+Proof.
+  destruct (predict_row_map [-3; 7; 250]%Z [1; 1; 1]%R (fun k => match k with 1%nat => 2 | _ => 0 end)%R)
+    as (k & Hk & _); [discriminate | rewrite Hk; discriminate].
+Qed.
